@@ -143,6 +143,56 @@ func xlateDispatch(repo, out string) {
 		bad("gettyClientHandler.RegisterProcessor: store `g.processorMap[msgType] = processor` not found")
 	}
 
+	// ---- the way of a response to the wire: SendAsyncResponse -> SendAsync -> sendAsync -> WritePkg.
+	// Nothing but a missing / closed session may keep the frame from being written, and it goes out
+	// under the id it was given (the model's Respond event is unconditional)
+	if fd := futuresFindFunc(gettyFiles, "GettyRemotingClient", "SendAsyncResponse"); fd == nil {
+		bad("GettyRemotingClient.SendAsyncResponse not found")
+	} else {
+		txt := printNode(fset, fd.Body)
+		for _, want := range []string{"ID: msgID,", "Type: message.GettyRequestTypeResponse,", "Body: msg,", "return client.gettyRemoting.SendAsync(rpcMessage, nil, nil)"} {
+			if !strings.Contains(txt, want) {
+				bad("SendAsyncResponse: `%s` not found", want)
+			}
+		}
+		if len(fd.Body.List) != 2 {
+			bad("SendAsyncResponse has %d statements", len(fd.Body.List))
+		}
+	}
+	earlyReturns := func(recv, name, marker string, allowed map[string]bool) {
+		fd := futuresFindFunc(gettyFiles, recv, name)
+		if fd == nil {
+			bad("%s.%s not found", recv, name)
+			return
+		}
+		reached := false
+		for _, st := range fd.Body.List {
+			if strings.Contains(printNode(fset, st), marker) {
+				reached = true
+				break
+			}
+			hasReturn := false
+			ast.Inspect(st, func(n ast.Node) bool {
+				if _, ok := n.(*ast.ReturnStmt); ok {
+					hasReturn = true
+				}
+				return true
+			})
+			if !hasReturn {
+				continue
+			}
+			if is, ok := st.(*ast.IfStmt); ok && is.Else == nil && is.Init == nil && allowed[printNode(fset, is.Cond)] {
+				continue
+			}
+			bad("%s may give up before `%s`: %s", name, marker, printNode(fset, st))
+		}
+		if !reached {
+			bad("%s: `%s` not found at the top level", name, marker)
+		}
+	}
+	earlyReturns("GettyRemoting", "SendAsync", "g.sendAsync(s, msg, callback)", map[string]bool{"s == nil": true})
+	earlyReturns("GettyRemoting", "sendAsync", "session.WritePkg(msg,", map[string]bool{"session == nil || session.IsClosed()": true})
+
 	// ---- rows of the processors that consult a resource manager
 	rows := map[string]*dispatchRow{}
 	for _, f := range procFiles {
